@@ -40,17 +40,18 @@ func (v *Violation) Key() string { return v.Class + "@" + v.Site }
 
 // SchedCfg mirrors core.Config (kept separate so that this package does not import golib).
 type SchedCfg struct {
-	Seed      uint64  `json:"seed"`
-	Policy    string  `json:"policy"` // uniform | sticky | pct | script
-	StickyPct int     `json:"sticky_pct,omitempty"`
-	PCTDepth  int     `json:"pct_depth,omitempty"`
-	PCTLen    int     `json:"pct_len,omitempty"`
-	Stalls    []Stall `json:"stalls,omitempty"`
-	FreezeAt  int     `json:"freeze_at"`
-	Probe     int     `json:"probe"`
-	TickPct   int     `json:"tick_pct,omitempty"`
-	SpinBurn  int     `json:"spin_burn,omitempty"`
-	MaxSteps  int     `json:"max_steps"`
+	Seed         uint64  `json:"seed"`
+	Policy       string  `json:"policy"` // uniform | sticky | pct | script
+	StickyPct    int     `json:"sticky_pct,omitempty"`
+	PCTDepth     int     `json:"pct_depth,omitempty"`
+	PCTLen       int     `json:"pct_len,omitempty"`
+	Stalls       []Stall `json:"stalls,omitempty"`
+	FreezeAt     int     `json:"freeze_at"`
+	Probe        int     `json:"probe"`
+	TickPct      int     `json:"tick_pct,omitempty"`
+	SpinBurn     int     `json:"spin_burn,omitempty"`
+	ClockJumpPct int     `json:"clock_jump_pct,omitempty"`
+	MaxSteps     int     `json:"max_steps"`
 }
 
 type Stall struct {
